@@ -34,6 +34,13 @@ def gen_reopen(rng, cfg):
         kind = "same-extra-key"
         c["extra"] = {"store_colour": "blue"}
         expect = "accept"
+    elif r < 0.41 and int(cfg["store_depth"]) != int(cfg["store_width"]):
+        # the same values under the wrong keys
+        kind = "depth-width-swapped"
+        c["store_depth"], c["store_width"] = cfg["store_width"], cfg["store_depth"]
+        if rng.random() < 0.3:
+            c["store_depth"], c["store_width"] = str(c["store_depth"]), str(c["store_width"])
+        expect = "reject"
     elif r < 0.47:
         kind = "depth"
         c["store_depth"] = rng.choice([d for d in range(1, 6) if d != int(cfg["store_depth"])])
